@@ -214,7 +214,8 @@ def supports_partial_fit(spec):
 
 
 def gen_classes(g: SimRng):
-    return g.pick([[0, 1], [0, 1, 2], [10, 20, 30], [1, 2], [0, 1, 2, 3]])
+    # also declaration orders that are not sorted (classes_ is sorted, a cost matrix follows the declared order)
+    return g.pick([[0, 1], [0, 1, 2], [10, 20, 30], [1, 2], [0, 1, 2, 3], [1, 2, 0], [20, 30, 10], [2, 0, 1], [1, 0]])
 
 
 def gen_cost_matrix(g: SimRng, k):
@@ -1045,9 +1046,14 @@ class C11Check(LifeCheckBase):
             # these points (e.g. GaussianNB after partial_fit with never observed classes): not the wrapper's doing
             ctx.probe("collaborator_inconsistent")
             return True
-        cm = getattr(est, "cost_matrix_", None)
-        if cm is None:
+        # the cost matrix as the caller configured it (declared class order), re-indexed to the sorted classes_
+        # independently of the library's own cost_matrix_
+        cm_decl = spec.get("params", {}).get("cost_matrix")
+        if cm_decl is None:
             cm = 1 - np.eye(K)
+        else:
+            perm = np.argsort(np.array(classes))
+            cm = np.array(cm_decl, dtype=float)[perm][:, perm]
         if cond["cost_matrix"]:
             ctx.probe("cost_matrix_decision")
         # re-evaluate proba (predict may have consumed tie-break randomness only)
